@@ -420,8 +420,9 @@ func killRuns(r *ev.Run, kind, scratch string, kills int) {
 				r.Count("real_states_outside_materialiser_"+idxKind, 1)
 			}
 			if packed && idxKind == "kv" {
-				o.info.Detail += "; pack/index state: " + o.info.Kind
-				o.info.Kind = "real-kill"
+				// what the kv-indexed live store answers after a kill does not depend on the pack state
+				// of the in-flight op (its index rows lag behind the acks): one site, one kind
+				o.liveKind = "real-kill"
 			}
 			ck := o.checker(s, label)
 			ck.Audit(o.rng, false)
